@@ -1,4 +1,4 @@
 From Coq Require Import Extraction ExtrOcamlBasic.
 From OV Require Import Common.Base C13.Model.
 Extraction Language OCaml.
-Extraction "C13_model.ml" init_state_gen empty_store step get_handler no_faults no_guard Repaired Head RestoreUnreported BootUnatomic FrrDefect Defective.
+Extraction "C13_model.ml" init_state_gen empty_store step get_handler no_faults no_guard Repaired PreAudit2 RestoreUnreported BootUnatomic FrrDefect Defective.
